@@ -65,6 +65,8 @@ struct SpawnRec {
   bool killed = false;
   bool deps_kind_depfile = false;
   std::string depfile;
+  int deps_kind = 0;
+  std::vector<std::string> reported_deps;   // what the command tells ninja it read (depfile list / showIncludes lines)
 };
 
 struct InvPlan {
@@ -179,6 +181,7 @@ struct World : SpawnHandler {
   void ComputeExpectedRun(const InvPlan& p);
   void UpdateCleanState(const InvRecord& r);
   void CheckMinimality(const InvRecord& r);
+  void CheckRecordedDeps(const InvRecord& r);
 
   // oracles (oracles.cc)
   void CheckAll(InvRecord& r);
